@@ -456,7 +456,7 @@ class Shelxfile():
                 self._append_card(self.restraints, RIGU(self, spline), line_num)
             elif word == 'BASF':
                 # BASF scale factors
-                self._assign_card(BASF(self, spline), line_num)
+                self.basf = self._assign_card(BASF(self, spline), line_num)
             elif word == 'HFIX':
                 # HFIX mn U[#] d[#] atomnames
                 self._append_card(self.hfixes, HFIX(self, spline), line_num)
